@@ -181,13 +181,13 @@ fn check_seq(ctx: &mut Ctx, idx: &[usize], with_mt: bool, opts: u8) {
         ctx.tally("first-not-message-type");
         return;
     }
-    // expected errors: one per bad record, in wire order, each the error the record gives alone
-    let mut expected: Vec<(usize, DecodeError, AvpRej)> = Vec::new();
+    // expected errors: one per bad record (by the specification's verdict on the record), in
+    // wire order; where the record decoded on its own yields exactly one error, that error
+    let mut expected: Vec<(usize, Option<DecodeError>, AvpRej)> = Vec::new();
     for r in &seen {
         if menu[*r].class == RecClass::Good {
             continue;
         }
-        let alone = dec_avps(&menu[*r].bytes);
         let (items, _) = spec::decode_avps(&menu[*r].bytes);
         let rej = match items.first().map(|i| &i.res) {
             Some(Err(r)) => r.clone(),
@@ -196,15 +196,11 @@ fn check_seq(ctx: &mut Ctx, idx: &[usize], with_mt: bool, opts: u8) {
                 std::process::exit(2);
             }
         };
-        match alone {
-            Some(mut v) if v.len() == 1 && v[0].is_err() => expected.push((*r, v.remove(0).unwrap_err(), rej)),
-            other => {
-                // the record alone is not reported as exactly one error: C05's finding, not ours
-                ctx.tally("record-alone-not-single-error");
-                let _ = other;
-                return;
-            }
-        }
+        let alone = match dec_avps(&menu[*r].bytes) {
+            Some(mut v) if v.len() == 1 && v[0].is_err() => Some(v.remove(0).unwrap_err()),
+            _ => None,
+        };
+        expected.push((*r, alone, rej));
     }
     match &out {
         Ok(m) => {
@@ -238,18 +234,20 @@ fn check_seq(ctx: &mut Ctx, idx: &[usize], with_mt: bool, opts: u8) {
                     format!(
                         "records {:?}: errors {e:?}, expected one per bad record {:?}",
                         recs.iter().map(|r| menu[*r].name).collect::<Vec<_>>(),
-                        expected.iter().map(|x| &x.1).collect::<Vec<_>>()
+                        expected.iter().map(|x| (menu[x.0].name, &x.2)).collect::<Vec<_>>()
                     ),
                 );
             } else {
                 for (i, (r, want, rej)) in expected.iter().enumerate() {
-                    if &e[i] != want {
-                        viol(
-                            ctx,
-                            &format!("error-attribution {}", menu[*r].name),
-                            format!("error {i} is {:?}, the record alone gives {want:?}; full list {e:?}", e[i]),
-                        );
-                        break;
+                    if let Some(want) = want {
+                        if &e[i] != want {
+                            viol(
+                                ctx,
+                                &format!("error-attribution {}", menu[*r].name),
+                                format!("error {i} is {:?}, the record alone gives {want:?}; full list {e:?}", e[i]),
+                            );
+                            break;
+                        }
                     }
                     if !err_in_class(&e[i], rej) {
                         viol(ctx, &format!("error-class {}", menu[*r].name), format!("error {:?} is not of the specified class {rej:?}", e[i]));
